@@ -10,4 +10,4 @@ CONSTANTS
 ACTION_CONSTRAINT EmitOp
 VIEW absvars
 INVARIANTS TypeOK IsCanon NoLeakNoDangling Independent
-PROPERTIES ObserversPure NoexceptNeverThrow ThrowChangesNothing OthersUntouched CopyCopies SwapSwaps ObserversAgree
+PROPERTIES ObserversPure NoexceptNeverThrow ThrowChangesNothing OthersUntouched CopyCopies SwapSwaps ObserversAgree NonRvalueSourceCopies RvalueMoves
